@@ -47,7 +47,8 @@ def required_guards(tier):
     return ['height>=3', 'single_child_interior', 'roundtrips', 'usable_ops', 'byte_compared',
             'cross_loaded', 'embedded_form', 'empty_form', 'db_commits', 'db_records_compared',
             'db_cross_reads', 'db_cross_writes', 'subclass_cases', 'subclass_pickles_compared',
-            'deep_pickles_compared', 'subclass_tree_roundtrips', 'subclass_tree_multibucket']
+            'deep_pickles_compared', 'subclass_tree_roundtrips', 'subclass_tree_multibucket',
+            'setstate_replacements']
 
 
 def configs(tier):
@@ -555,6 +556,34 @@ def subclass_job(fam):
                             rep.add(dict(sig, site='subclass', cls='pickle-bytes'), case,
                                     'protocol %d: C %r, Python %r' % (proto, dc, dp))
                             break
+    # __setstate__ REPLACES the whole state of a live leaf, including its successor link
+    for kind in ('Bucket', 'Set'):
+        ismap = F.is_map(kind)
+        for impl in F.IMPLS:
+            cls = F.cls(fam, kind, impl)
+            flat1 = tuple(x for k, v in zip(ks, vs) for x in ((k, v) if ismap else (k,)))
+            flat2 = flat1[:2] if ismap else flat1[:1]
+            n1, n2 = cls(), cls()
+            steps = [((flat1, n1), n1), ((flat2,), None), ((flat1, n2), n2), ((flat2, n1), n1),
+                     (((),), None), ((flat1,), None)]
+            b = cls()
+            for i, (st, want_next) in enumerate(steps):
+                evaluations += 1
+                guards['setstate_replacements'] += 1
+                sig = dict(sub=True, fam=fam, kind=kind, impl=impl, site='setstate-replace')
+                case = dict(sub=True, fam=fam, kind=kind, keyform='replace', valform=str(i), entry=impl)
+                try:
+                    b.__setstate__(st)
+                    got = b.__getstate__()
+                    gnext = got[1] if len(got) > 1 else None
+                    if gnext is not want_next or tuple(got[0]) != tuple(st[0]):
+                        rep.add(dict(sig, cls='state-not-replaced'), case,
+                                'step %d: __setstate__(%r) on a live %s left the state %r'
+                                % (i, st, cls.__name__, got))
+                        break
+                except Exception as e:      # noqa
+                    rep.add(dict(sig, cls='exc-' + type(e).__name__), case, 'step %d: %r' % (i, e))
+                    break
     return dict(states=evaluations, transitions=evaluations, compared=evaluations,
                 evaluations=evaluations, distinct=evaluations, exhaustive=not rep.full,
                 guards=dict(guards), outcomes={}, violations=rep.all(), sample=sample)
